@@ -56,7 +56,12 @@ N_SCRIPTS = 64
 
 OPTS = ("default", "sgd_class", "user_class", "sgd_inst", "user_inst")
 MODELS = ("lazy_mlp", "mlp", "free_mo")
+# three-layer MLPs with one frozen (requires_grad=False) layer: first / middle / last in model.parameters() order
+FROZEN = ("mlp_frozen_first", "mlp_frozen_mid", "mlp_frozen_last")
 CRITERIA = ("erm", "es", "oce", "mse")
+# a criterion whose VALUE is not finite on the scripted batches (log of a negative terminal wealth) while its gradient
+# -1/(N pl_i) is: the documented loop still takes its k steps
+NONFINITE = ("iso_log",)
 HEDGES = ("none", "stock", "stock+listed")
 PRES = ("fresh", "eval", "stale_grad")
 # two fit() calls on ONE hedger: (optimiser kind of call 1, of call 2)
@@ -144,6 +149,9 @@ def make_criterion(name):
         return c
     if name == "mse":
         return torch.nn.MSELoss()
+    if name == "iso_log":
+        from pfhedge.nn import IsoelasticLoss
+        return IsoelasticLoss(a=1.0)
     raise KeyError(name)
 
 
@@ -223,6 +231,14 @@ def build_world(case, events):
         fwd = T - 1
     elif mv == "mlp":
         net = MultiLayerPerceptron(2, H, n_layers=1, n_units=3, activation=torch.nn.Tanh())
+        inputs = ["moneyness", "time_to_maturity"]
+        model = Probed(net, H)
+        fwd = 1
+    elif mv in FROZEN:
+        net = MultiLayerPerceptron(2, H, n_layers=2, n_units=3, activation=torch.nn.Tanh())
+        layer = {"mlp_frozen_first": 0, "mlp_frozen_mid": 2, "mlp_frozen_last": 4}[mv]
+        for p in net[layer].parameters():
+            p.requires_grad_(False)
         inputs = ["moneyness", "time_to_maturity"]
         model = Probed(net, H)
         fwd = 1
@@ -350,7 +366,7 @@ def begin_call(w, case, call, ci, events):
         if pre in ("eval", "used"):
             w.hedger.eval()
     # parameters a user would hand to an optimiser instance: everything trainable and in use
-    trainable = [p for n, p in sorted(params.items()) if not n.startswith("replaced_model.")]
+    trainable = [p for n, p in sorted(params.items()) if not n.startswith("replaced_model.") and (is_lazy(p) or p.requires_grad)]
     if opt == "default":
         w.opt_arg, w.opt_cls = None, torch.optim.Adam
     elif opt == "sgd_class":
@@ -381,6 +397,7 @@ class Recorder:
         self.steps = []        # per optimiser step: dict(opt, grads, before, after)
         self.seen_opts = []    # optimisers whose zero_grad()/step() was called while recording
         self.backward_info = []
+        self.loss_finite = []
 
     def __enter__(self):
         import torch.optim.optimizer as O
@@ -391,6 +408,7 @@ class Recorder:
         def backward(t, *a, **kw):
             rec.events.append(("backward",))
             rec.backward_info.append((tuple(t.shape), bool(t.requires_grad)))
+            rec.loss_finite.append(bool(torch.isfinite(t.detach()).all()))
             return rec._orig_backward(t, *a, **kw)
 
         def zero_grad(opt, *a, **kw):
@@ -440,9 +458,18 @@ class Recorder:
         return False
 
 
+_DEVNULL = None
+
+
 def call_fit(w, case, call):
+    global _DEVNULL
     kw = dict(n_epochs=call["k"], n_paths=case["n_paths"], n_times=case["n_times"],
-              init_state=w.init_state, verbose=False, validation=case["validation"])
+              init_state=w.init_state, verbose=bool(case.get("verbose", False)), validation=case["validation"])
+    if kw["verbose"]:
+        # the progress bar is on; its output goes to the null device instead of stderr
+        if _DEVNULL is None:
+            _DEVNULL = open(os.devnull, "w")
+        kw["tqdm_kwargs"] = {"file": _DEVNULL}
     if w.hedge is not None:
         kw["hedge"] = w.hedge
     if w.opt_arg is not None:
@@ -491,7 +518,7 @@ def _raised_by_harness(exc):
 
 
 def classify_case(case):
-    return f"{case['opt']}/{case['model']}"
+    return f"{case['opt']}/{case['model']}" + ("/verbose" if case.get("verbose") else "")
 
 
 def check_case(ctx, case, stats):
@@ -588,6 +615,12 @@ def _compare_call(ctx, case, call, ci, w, rec, events, params0, final, history, 
             ctx.violation(site, f"{pfx}backward_operand", f"backward() called on a tensor of shape {shp}, requires_grad={rg}",
                           observed=[list(shp), rg], expected=[[], True], block=mini)
 
+    if rec.loss_finite and not all(rec.loss_finite):
+        stats["nonfinite_loss_runs"] = stats.get("nonfinite_loss_runs", 0) + 1
+        finite_grads = all(g is None or isinstance(g, str) or bool(torch.isfinite(g).all())
+                           for st in rec.steps for g in st["grads"].values())
+        if finite_grads and len(rec.steps) == k:
+            stats["nonfinite_loss_finite_gradient_runs"] = stats.get("nonfinite_loss_finite_gradient_runs", 0) + 1
     # (c) which optimiser stepped, how often, over which parameters
     n_steps = len(rec.steps)
     if n_steps != k:
@@ -609,9 +642,10 @@ def _compare_call(ctx, case, call, ci, w, rec, events, params0, final, history, 
             hedger_ids = set(id(p) for p in w.hedger.parameters())
             # the documentation says optimizer(hedger.parameters()), the code uses model.parameters();
             # the property only speaks of "the constructed optimiser": anything between the two is accepted
-            if not (set(model_ids) <= set(ids) <= hedger_ids) or len(ids) != len(set(ids)):
-                ctx.violation(site, f"{pfx}optimizer:parameter_set", f"the constructed optimiser does not own the current model's parameters (and only the hedger's) {tag}",
-                              observed=len(set(ids) & set(model_ids)), expected=len(model_ids), block=mini)
+            need_ids = set(id(p) for p in w.hedger.model.parameters() if p.requires_grad)
+            if not (need_ids <= set(ids) <= hedger_ids) or len(ids) != len(set(ids)):
+                ctx.violation(site, f"{pfx}optimizer:parameter_set", f"the constructed optimiser does not own every trainable parameter of the current model (and only the hedger's) {tag}",
+                              observed=len(set(ids) & need_ids), expected=len(need_ids), block=mini)
             # an optimiser constructed for this call has taken exactly this call's k steps
             # (torch optimisers keep a per-parameter step counter; the user optimiser does not)
             counts = set()
@@ -657,6 +691,10 @@ def _compare_call(ctx, case, call, ci, w, rec, events, params0, final, history, 
     if moved:
         ctx.violation(site, f"{pfx}params:changed_outside_optimizer", f"parameters not owned by the optimiser changed: {moved} {tag}",
                       observed=moved, expected=[], block=mini)
+    frozen_moved = [n for n in diff_names(params0, final) if n in cur and not is_lazy(cur[n]) and not cur[n].requires_grad]
+    if frozen_moved:
+        ctx.violation(site, f"{pfx}params:frozen_parameter_changed", f"parameters with requires_grad=False changed: {frozen_moved} {tag}",
+                      observed=frozen_moved, expected=[], block=mini)
     # the model in use is what gets trained (vacuity guard + replaced-model variant)
     trainable_now = [n for n in cur if n.startswith("hedger.model.")]
     if k >= 1 and trainable_now and w.opt_cls is not None and not [n for n in diff_names(params0, final) if n.startswith("hedger.model.")]:
@@ -724,8 +762,9 @@ def _finish_stats(ctx, stats):
         ctx.outcome(("automaton_state",) + tuple(s))
     if stats["unchanged"]:
         ctx.add("runs_with_steps_but_unchanged_parameters", stats["unchanged"])
-    if stats.get("two_call_histories"):
-        ctx.add("two_call_histories", stats["two_call_histories"])
+    for key in ("two_call_histories", "nonfinite_loss_runs", "nonfinite_loss_finite_gradient_runs"):
+        if stats.get(key):
+            ctx.add(key, stats[key])
 
 
 @family
@@ -800,8 +839,9 @@ def run(ctx):
                "the real simulator is used in family real_rng")
     ctx.alphabet("k", [0, 1, 2, 3] if ctx.thorough else [0, 1, 2])
     ctx.alphabet("optimizer", list(OPTS))
-    ctx.alphabet("model", list(MODELS))
-    ctx.alphabet("criterion", list(CRITERIA))
+    ctx.alphabet("model", list(MODELS) + list(FROZEN))
+    ctx.alphabet("criterion", list(CRITERIA) + list(NONFINITE))
+    ctx.alphabet("verbose", [False, True])
     ctx.alphabet("hedge", list(HEDGES))
     ctx.alphabet("pre", list(PRES))
     ctx.alphabet("two_call_sequences(optimiser of call 1, of call 2)", [list(x) for x in SEQUENCES])
@@ -820,6 +860,22 @@ def run(ctx):
         blocks = [_expand(p1, wseed), _expand(p2, wseed)]
         for b in blocks:
             ctx.run("fit_scripted", b)
+        # P4: partially frozen models x every optimiser kind (class and instance)
+        p4 = {"product": {"k": [1, 2], "val_ntimes": [[True, 1]], "opt": list(OPTS), "model": list(FROZEN),
+                          "content": [["erm", "none", None, 3], ["oce", "stock+listed", 1.25, 1]], "pre": ["fresh", "used"]}}
+        ctx.run("fit_scripted", _expand(p4, wseed))
+        p5 = {"product": {"k": [2], "val_ntimes": [[True, 2]], "opt": list(OPTS), "model": list(FROZEN),
+                          "content": [["erm", "stock+listed", 1.25, 3]], "pre": ["fresh"]}}
+        ctx.run("real_rng", _expand(p5, wseed))
+        # P6: a training loss that is not finite while its gradient is; P7: the progress bar on (verbose=True)
+        p6 = {"product": {"k": [1, 2], "val_ntimes": [[False, 1], [True, 1]], "opt": list(OPTS), "model": ["mlp", "lazy_mlp"],
+                          "content": [[c, "none", None, 3] for c in NONFINITE], "pre": ["fresh"]}}
+        ctx.run("fit_scripted", _expand(p6, wseed))
+        p7 = {"product": {"k": [1, 2], "val_ntimes": [[False, 1], [False, 2], [True, 2]], "opt": ["default", "sgd_inst"],
+                          "model": list(MODELS), "content": [["erm", "none", None, 3]], "pre": ["fresh", "used"], "verbose": [True]}}
+        ctx.run("fit_scripted", _expand(p7, wseed))
+        p7["product"]["pre"] = ["fresh"]
+        ctx.run("real_rng", _expand(p7, wseed))
         two = _two_call_cases(wseed, [(1, 1), (2, 2), (0, 1)], [(True, 1), (False, 1)],
                               [["erm", "none", None, 3]], ["fresh"])
         two += _two_call_cases(wseed, [(1, 2)], [(True, 2)], [["oce", "stock+listed", 1.25, 1]], ["used"])
@@ -839,8 +895,26 @@ def run(ctx):
                                      "criterion": [crit], "hedge": list(HEDGES), "init": [None, 1.25],
                                      "n_paths": [1, 3], "pre": list(PRES)}}
                     blocks.append(_expand(p, wseed))
+        for opt in OPTS:
+            p = {"product": {"k": [0, 1, 2, 3], "val_ntimes": VN, "opt": [opt], "model": list(FROZEN),
+                             "criterion": ["erm", "oce"], "hedge": ["none", "stock+listed"], "init": [None, 1.25],
+                             "n_paths": [3], "pre": ["fresh", "used"]}}
+            blocks.append(_expand(p, wseed))
+        blocks.append(_expand({"product": {"k": [1, 2, 3], "val_ntimes": VN, "opt": list(OPTS), "model": ["mlp", "lazy_mlp"] + list(FROZEN),
+                                           "criterion": list(NONFINITE), "hedge": list(HEDGES), "init": [None, 1.25],
+                                           "n_paths": [3], "pre": ["fresh", "used"]}}, wseed))
+        for model in MODELS:
+            blocks.append(_expand({"product": {"k": [0, 1, 2, 3], "val_ntimes": VN, "opt": list(OPTS), "model": [model],
+                                               "criterion": ["erm", "oce"], "hedge": ["none", "stock+listed"], "init": [None],
+                                               "n_paths": [3], "pre": ["fresh", "used"], "verbose": [True]}}, wseed))
         ctx.run_parallel("fit_scripted", blocks, workers=min(_workers(), len(blocks)))
         rblocks = []
+        rblocks.append(_expand({"product": {"k": [1, 2, 3], "val_ntimes": VN, "opt": list(OPTS), "model": list(MODELS),
+                                            "criterion": ["erm"], "hedge": ["none", "stock+listed"], "init": [1.25],
+                                            "n_paths": [3], "pre": ["fresh"], "verbose": [True]}}, wseed))
+        rblocks.append(_expand({"product": {"k": [1, 2, 3], "val_ntimes": [[True, 2]], "opt": list(OPTS), "model": list(FROZEN),
+                                            "criterion": ["erm", "oce"], "hedge": ["none", "stock+listed"], "init": [1.25],
+                                            "n_paths": [3], "pre": ["fresh"]}}, wseed))
         for opt in OPTS:
             for model in MODELS:
                 p = {"product": {"k": [0, 1, 2, 3], "val_ntimes": VN, "opt": [opt], "model": [model],
